@@ -56,6 +56,34 @@ class FxAgent(Agent, IDecodable):
     __slots__ = ["where"]
 
 
+class FxSystemMain(FxSystem):
+    """Installed in `__main__` under the SAME class name `FxSystem`: which class a description gets depends on its module."""
+    origin = "main"
+
+    @staticmethod
+    def decode(params):
+        _emit("system", params["i"], 0, params.get("model") is CURRENT[0] and CURRENT[0] is not None)
+        return FxSystemMain(params["id"], params["model"], priority=params["priority"], frequency=params["frequency"],
+                            start=params["start"], end=params["end"])
+
+
+class FxAgentMain(FxAgent):
+    origin = "main"
+
+    @staticmethod
+    def decode(params):
+        _emit("agent", params["j"], params["agent_index"], params.get("model") is CURRENT[0] and CURRENT[0] is not None)
+        a = FxAgentMain("g%d_%d" % (params["j"], params["agent_index"]), params["model"])
+        a.where = (params["j"], params["agent_index"])
+        return a
+
+    __slots__ = []
+
+
+FxSystem.origin = "mod"
+FxAgent.origin = "mod"
+
+
 def hook(params):
     if params.get("swap_env") and CURRENT[0] is not None:
         from ECAgent.Core import Environment
